@@ -44,6 +44,29 @@ func Ghost_nremoved(s Store) int          { return ghost_nremoved(s) }
 func Ghost_rmBoxAt(s Store, j int) string { return vcSeqAt(ghost_rmBoxes(s), j) }
 func Ghost_rmIDAt(s Store, j int) string  { return vcSeqAt(ghost_rmIDs(s), j) }
 
+// Ghost log of AddMessage calls: the mailbox, sender, subject and size of each message handed to the
+// store (read through the message's pure getters at the moment of the call) and the id returned.
+func ghost_nadded(s Store) int             { panic("ghost") }
+func ghost_addBoxes(s Store) vcSeq[string] { panic("ghost") }
+func ghost_addMsgs(s Store) vcSeq[Message] { panic("ghost") }
+func ghost_addIDs(s Store) vcSeq[string]   { panic("ghost") }
+
+func Ghost_nadded(s Store) int              { return ghost_nadded(s) }
+func Ghost_addBoxAt(s Store, j int) string  { return vcSeqAt(ghost_addBoxes(s), j) }
+func Ghost_addMsgAt(s Store, j int) Message { return vcSeqAt(ghost_addMsgs(s), j) }
+func Ghost_addIDAt(s Store, j int) string   { return vcSeqAt(ghost_addIDs(s), j) }
+
+//@ iface Store.AddMessage(self Store, message Message) (id string, err error)
+//@   requires message != nil
+//@   modifies ghost_nadded(self), ghost_addBoxes(self), ghost_addMsgs(self), ghost_addIDs(self)
+//@   ensures ghost_nadded(self) == old(ghost_nadded(self)) + 1
+//@   ensures vcSeqAt(ghost_addBoxes(self), old(ghost_nadded(self))) == message.Mailbox()
+//@   ensures vcSeqAt(ghost_addMsgs(self), old(ghost_nadded(self))) == message
+//@   ensures vcSeqAt(ghost_addIDs(self), old(ghost_nadded(self))) == id
+//@   ensures forall j int :: { vcSeqAt(ghost_addBoxes(self), j) } j < old(ghost_nadded(self)) ==> vcSeqAt(ghost_addBoxes(self), j) == old(vcSeqAt(ghost_addBoxes(self), j))
+//@   ensures forall j int :: { vcSeqAt(ghost_addMsgs(self), j) } j < old(ghost_nadded(self)) ==> vcSeqAt(ghost_addMsgs(self), j) == old(vcSeqAt(ghost_addMsgs(self), j))
+//@   ensures forall j int :: { vcSeqAt(ghost_addIDs(self), j) } j < old(ghost_nadded(self)) ==> vcSeqAt(ghost_addIDs(self), j) == old(vcSeqAt(ghost_addIDs(self), j))
+
 // GetMessages returns a fresh slice of existing messages.
 //@ iface Store.GetMessages(self Store, mailbox string) (r []Message, err error)
 //@   ensures vcFresh(r) || r == nil
